@@ -1,6 +1,7 @@
 package main
 
 import (
+	"bufio"
 	"bytes"
 	"errors"
 	"fmt"
@@ -59,6 +60,13 @@ type msgSpec struct {
 	Headers                                          []kv
 	CL                                               int64
 	TE                                               []string
+
+	// Parsed: the message is not assembled field by field but parsed by net/http
+	// (http.ReadRequest / http.ReadResponse) from wire text rendered from this
+	// spec, as it is inside the proxy; BodyHdr is the framing header line written:
+	// "none", "cl0" (Content-Length: 0), "cl" (Content-Length: <size>), "chunked".
+	Parsed  bool
+	BodyHdr string
 
 	BodySize int
 	BodySeed int64 // behaviour of the underlying body
@@ -158,7 +166,84 @@ func genMsg(rng *rand.Rand, sess, g, j int, small bool) *msgSpec {
 	m.BodySeed = rng.Int63()
 	m.ReadSeed = rng.Int63()
 	m.StopMode = []int{0, 0, 0, 1, 2}[rng.Intn(5)]
+	if rng.Intn(3) == 0 {
+		makeParsed(m, rng)
+	}
 	return m
+}
+
+// makeParsed turns m into a message that can be written as HTTP/1 wire text and
+// parsed back by net/http: canonical header names, printable values, a Host
+// line, and one of the body-framing header variants.
+func makeParsed(m *msgSpec, rng *rand.Rand) {
+	m.Parsed = true
+	m.Proto = []string{"HTTP/1.1", "HTTP/1.1", "HTTP/1.0"}[rng.Intn(3)]
+	m.ReqHost = m.Host
+	if strings.HasSuffix(m.Reason, " ") {
+		m.Reason += "OK"
+	}
+	var hs []kv
+	for _, e := range m.Headers {
+		if e.K == "" {
+			continue
+		}
+		v := []byte(e.V)
+		for i, c := range v {
+			if c < 0x21 || c > 0x7e {
+				v[i] = 'x'
+			}
+		}
+		hs = append(hs, kv{http.CanonicalHeaderKey(e.K), string(v)})
+	}
+	m.Headers = hs
+	m.BodyHdr = []string{"none", "cl0", "cl0", "cl", "chunked"}[rng.Intn(5)]
+	if m.Type == 2 && m.Status == 204 && (m.BodyHdr == "cl" || m.BodyHdr == "chunked") {
+		m.BodyHdr = "cl0"
+	}
+	if m.Proto == "HTTP/1.0" && m.BodyHdr == "chunked" {
+		// net/http deletes and ignores Transfer-Encoding on HTTP/1.0 messages, so the
+		// parsed message no longer has that header; not a case for marbl
+		m.BodyHdr = "cl"
+	}
+	m.TE = nil
+	switch m.BodyHdr {
+	case "cl0":
+		m.BodySize = 0
+		m.CL = 0
+	case "cl":
+		m.CL = int64(m.BodySize)
+	case "chunked":
+		m.CL = -1
+	default:
+		m.CL = -1
+	}
+}
+
+// wireText renders the head of the message as HTTP/1 wire text.
+func wireText(m *msgSpec) string {
+	var sb strings.Builder
+	if m.Type == 1 {
+		target := m.Scheme + "://" + m.Host + m.Path
+		if m.Query != "" {
+			target += "?" + m.Query
+		}
+		fmt.Fprintf(&sb, "%s %s %s\r\nHost: %s\r\n", m.Method, target, m.Proto, m.Host)
+	} else {
+		fmt.Fprintf(&sb, "%s %s\r\n", m.Proto, m.Reason)
+	}
+	for _, e := range m.Headers {
+		fmt.Fprintf(&sb, "%s: %s\r\n", e.K, e.V)
+	}
+	switch m.BodyHdr {
+	case "cl0":
+		sb.WriteString("Content-Length: 0\r\n")
+	case "cl":
+		fmt.Fprintf(&sb, "Content-Length: %d\r\n", m.BodySize)
+	case "chunked":
+		sb.WriteString("Transfer-Encoding: chunked\r\n")
+	}
+	sb.WriteString("\r\n")
+	return sb.String()
 }
 
 // ---------------------------------------------------------------------------
@@ -478,6 +563,24 @@ func logOne(s *marbl.Stream, m *msgSpec) *result {
 	res := &result{m: m, src: newSrcBody(m)}
 	req := &http.Request{Method: m.Method, URL: buildURL(m), Proto: m.Proto, Header: http.Header{}, Host: m.ReqHost,
 		RemoteAddr: m.Remote, ContentLength: -1, Body: http.NoBody}
+	var pres *http.Response
+	if m.Parsed {
+		// the message is what net/http makes of the wire text; only the body is
+		// replaced by the instrumented one
+		var err error
+		if m.Type == 1 {
+			req, err = http.ReadRequest(bufio.NewReader(strings.NewReader(wireText(m))))
+			if err == nil {
+				req.RemoteAddr = m.Remote
+			}
+		} else {
+			pres, err = http.ReadResponse(bufio.NewReader(strings.NewReader(wireText(m))), req)
+		}
+		if err != nil {
+			res.err = fmt.Errorf("harness: net/http rejects the generated wire text: %v", err)
+			return res
+		}
+	}
 	ctx, remove, err := martian.TestContext(req, nil, nil)
 	if err != nil {
 		res.err = err
@@ -490,9 +593,11 @@ func logOne(s *marbl.Stream, m *msgSpec) *result {
 	res.t0 = time.Now().UnixNano() / 1e6
 	var body io.ReadCloser
 	if m.Type == 1 {
-		req.Header = buildHeader(m)
-		req.ContentLength = m.CL
-		req.TransferEncoding = m.TE
+		if !m.Parsed {
+			req.Header = buildHeader(m)
+			req.ContentLength = m.CL
+			req.TransferEncoding = m.TE
+		}
 		req.Body = res.src
 		if err := s.LogRequest(m.ID, req); err != nil {
 			res.err = err
@@ -502,6 +607,11 @@ func logOne(s *marbl.Stream, m *msgSpec) *result {
 	} else {
 		hres := &http.Response{StatusCode: m.Status, Status: m.Reason, Proto: m.Proto, Header: buildHeader(m),
 			ContentLength: m.CL, TransferEncoding: m.TE, Body: res.src, Request: req}
+		if m.Parsed {
+			hres = pres
+			hres.Body = res.src
+			hres.Request = req
+		}
 		if err := s.LogResponse(m.ID, hres); err != nil {
 			res.err = err
 			return res
@@ -724,6 +834,11 @@ func judgeOutput(r *vh.Run, c interface{}, driver, writer string, K int, out []b
 			r.Count("body_bytes_compared", int64(len(res.cons.got)))
 			kinds := readKinds(res.cons.log)
 			r.Class(fmt.Sprintf("%s-reads|%s|kinds=%s|lastterm=%v", driver, typeName(m.Type), strings.Join(kinds, "+"), lastTerm))
+			origin := "built|cl=" + map[bool]string{true: "unknown", false: "set"}[m.CL < 0] + "|te=" + strconv.Itoa(len(m.TE)) + "|host=" + strconv.FormatBool(m.ReqHost != "")
+			if m.Parsed {
+				origin = "parsed|" + m.Proto + "|framing=" + m.BodyHdr
+			}
+			r.Class(fmt.Sprintf("%s-headers|%s|%s", driver, typeName(m.Type), origin))
 			for _, k := range kinds {
 				r.Count("read_outcome_"+k, 1)
 			}
@@ -852,6 +967,21 @@ func expectedHeaders(m *msgSpec) (must map[kv]int, optional map[kv]bool) {
 	optional = map[kv]bool{}
 	for _, e := range m.Headers {
 		must[e]++
+	}
+	if m.Parsed {
+		// exactly the header lines of the wire text
+		if m.Type == 1 {
+			must[kv{"Host", m.Host}]++
+		}
+		switch m.BodyHdr {
+		case "cl0":
+			must[kv{"Content-Length", "0"}]++
+		case "cl":
+			must[kv{"Content-Length", strconv.Itoa(m.BodySize)}]++
+		case "chunked":
+			must[kv{"Transfer-Encoding", "chunked"}]++
+		}
+		return
 	}
 	if m.Type == 1 && m.ReqHost != "" {
 		must[kv{"Host", m.ReqHost}]++
